@@ -98,6 +98,9 @@ func perform(e *Env, r *mux.Router[*Comp], op *Op) (out string) {
 		if op.Req.Path == "*" && op.Req.Method == "OPTIONS" {
 			return starKey(&o)
 		}
+		if (o.Kind == KOptions || o.Kind == K405) && o.Panic == "" && !o.Zero {
+			return reqKey(&o) + " allowinv=[" + strings.Join(sortedKeys(setOf(o.Allow)), ",") + "]"
+		}
 		return reqKey(&o)
 	case "routes":
 		return routesKey(r.Routes())
@@ -203,7 +206,7 @@ func checkLinearizable(w *World, logs []opLog, st *Stats) (porcupine.CheckResult
 		Init: func() interface{} { return "" },
 		Step: func(state, input, output interface{}) (bool, interface{}) {
 			out, next := m.eval(state.(string), input.(linInput).ID)
-			return out == output.(string), next
+			return stripInv(out) == stripInv(output.(string)), next
 		},
 		Equal: func(a, b interface{}) bool { return a.(string) == b.(string) },
 	}
@@ -218,6 +221,13 @@ func checkLinearizable(w *World, logs []opLog, st *Stats) (porcupine.CheckResult
 		res = porcupine.Unknown // the budget ended the search: inconclusive, never a violation
 	}
 	return res, m
+}
+
+func stripInv(s string) string {
+	if i := strings.Index(s, " allowinv="); i >= 0 {
+		return s[:i]
+	}
+	return s
 }
 
 func describeHistory(logs []opLog) string {
@@ -390,7 +400,7 @@ func genC06(r *Rng, idx int, tier string) *World {
 				op.K = "req"
 				p := pick(r, all)
 				path, _ := p.Witness(r)
-				op.Req = &Req{Method: pick(r, []string{"GET", "GET", "GET", "POST", "HEAD", "OPTIONS", "PUT"}), Path: path}
+				op.Req = &Req{Method: pick(r, []string{"GET", "GET", "GET", "POST", "HEAD", "OPTIONS", "OPTIONS", "PUT", "BOGUS"}), Path: path}
 				if r.Pct(12) {
 					op.Req = &Req{Method: "OPTIONS", Path: "*"}
 				}
@@ -442,6 +452,20 @@ func execC06(w *World, st *Stats) (*Violation, RunInfo) {
 	for _, t := range sw.Tasks() {
 		if t.Panic != nil {
 			return mk("task-panic", "task-panic", fmt.Sprintf("task %s died: %v", t.Name, t.Panic)), info
+		}
+	}
+	// an invariant of every sequential state: a non-empty Allow header of an OPTIONS/405 answer lists
+	// OPTIONS, and TRACE when a TRACE handler is configured (after a concurrent removal it may be empty)
+	for _, l := range logs {
+		if l.Op.K != "req" || !strings.Contains(l.Out, " allowinv=") {
+			continue
+		}
+		set := setOf(strings.TrimSuffix(strings.SplitN(l.Out, " allowinv=[", 2)[1], "]"))
+		if len(set) == 0 {
+			continue
+		}
+		if !set["OPTIONS"] || (w.Opts.Trace && !set["TRACE"]) {
+			return mk("allow-invariant", "allow-partial", fmt.Sprintf("%s answered %s: an Allow set that no sequential state of this router has (trace=%v)%s", l.Op.Req, l.Out, w.Opts.Trace, describeHistory(logs))), info
 		}
 	}
 	res, m := checkLinearizable(w, logs, st)
